@@ -164,7 +164,7 @@ def reachedOneSteps (F : Fns) (τ ε : Rat) (g : GState) (s : St) : Res Bool :=
       | _, _ => true
     .ok (r1 && r2 && r3 && r4)
 
-/-! ### what `GoalRegion(state_list)` admits as a goal state (`_validate_goal_state`, goal.py:157-197; `state_list` setter, 67-71) -/
+/-! ### what `GoalRegion(state_list)` accepts as a goal state (`_validate_goal_state`, goal.py:157-197; `state_list` setter, 67-71) -/
 
 /-- The class of an attribute value, as far as `_validate_goal_state` distinguishes (`AngleInterval` is a subclass of `Interval`). -/
 inductive Cls where
